@@ -755,6 +755,8 @@ class Container:
             amount_to_add = Unit.convert(source, quantity, 'U')
         else:
             amount_to_add = Unit.convert(source, quantity, config.moles_storage_unit)
+        if round(volume_to_add, config.internal_precision) < 0 or round(amount_to_add, config.internal_precision) < 0:
+            raise ValueError("Quantity to add must not be negative.")
         if round(self.volume + volume_to_add, config.internal_precision) > self.max_volume:
             raise ValueError("Exceeded maximum volume")
         self.volume = round(self.volume + volume_to_add, config.internal_precision)
